@@ -126,15 +126,13 @@ def p_fld_conv(_=None):
 
 def p_stats_gcd(_=None):
     async def prog(mpc):
-        secint = mpc.SecInt(16)
+        secint = mpc.SecInt(8)
         x = mpc.input(secint(6 * (mpc.pid + 1)))
-        data = x + [secint(9), secint(6), secint(12)]
+        data = x[:3] + [secint(9), secint(6)]
         mean = mpc.statistics.mean(data)
         med = mpc.statistics.median(data)
         mode = mpc.statistics.mode(data)
-        g = mpc.gcd(x[0], secint(15))
-        inv = mpc.inverse(secint(3), secint(7))
-        return await mpc.output([mean, med, mode, g, inv, mpc.pow(x[0], 2) if hasattr(mpc, 'pow') else x[0] * x[0]])
+        return await mpc.output([mean, med, mode, x[0] * x[0]])
     return prog
 
 
